@@ -34,6 +34,46 @@ def preds(p):
     return cs
 
 
+
+def flag_terminator_edges(f):
+    """`terminated = ch == '}'` kept in a variable and tested afterwards: [(switch block, target on which the name was terminated)]
+    for every boolean switch on a local whose definitions are `false` literals and one comparison of a character with '}'"""
+    out = []
+    for blk in f.blocks:
+        if blk["id"] not in f.reachable_blocks() or blk["term"]["k"] != "switch":
+            continue
+        si = SwitchInfo(f, blk["id"])
+        if not si.is_bool:
+            continue
+        pl = si.t["discr"].get("copy") or si.t["discr"].get("move")
+        if not pl or pl["p"]:
+            continue
+        loc = pl["l"]
+        # look through one negation kept in a temporary
+        ds = [d_ for d_ in f.defs(loc) if not d_[0]]
+        if len(ds) == 1 and ds[0][3] == "rv" and ds[0][4]["k"] == "un" and ds[0][4].get("op") == "Not":
+            q_ = ds[0][4]["a"].get("copy") or ds[0][4]["a"].get("move")
+            if q_ and not q_["p"]:
+                loc = q_["l"]
+        rds = f.root_defs(loc)
+        if not rds:
+            continue
+        cmps, others = [], []
+        for b_, e_ in rds:
+            e_ = deep_strip(e_)
+            if e_[0] == "bin" and e_[1] == "Eq" and any(deep_strip(x) == ("const", "char", "}") for x in e_[2:4]):
+                cmps.append(b_)
+            elif e_ == ("const", "bool", False):
+                others.append(b_)
+            else:
+                cmps = None
+                break
+        if cmps and len(cmps) == 1:
+            t_ = si.target_of(True)
+            if t_ is not None:
+                out.append((blk["id"], t_))
+    return out
+
 def run_cfg(ctx, p, cfg):
     feats = set(p.meta.get("features", []))
     with ctx.rule("N1", "every location is expanded", cfg) as r:
@@ -136,6 +176,8 @@ def run_cfg(ctx, p, cfg):
                         for x in (deep_strip(nf[1]), deep_strip(nf[2])):
                             if x[0] == "const" and x[1] == "char":
                                 suff = x[2]
+        if suff is None and flag_terminator_edges(f):
+            suff = "}"      # compared through a flag: `terminated = ch == '}'`
         r.require(suff == "}", "suffix-literal", fn=f, detail="terminator compared: %r" % suff)
         # match_end = start + len(prefix) + name.len() + len_utf8(suffix)
         rp = f.call1(REPLACE)
@@ -214,6 +256,12 @@ def run_cfg(ctx, p, cfg):
             if nf and nf[0] == "Eq" and any(deep_strip(x) == ("const", "char", "}") for x in nf[1:]) and {si2.label(v) for v, _ in al2} == {True} and from_scan:
                 on_suffix = True
         valid_ok = valid_ok or on_suffix
+        if not valid_ok:
+            # .. or on a flag that holds the comparison itself: the replace lies on the `terminated` edge of its test
+            for sb_, t_ in flag_terminator_edges(f):
+                for sb2, si2, al2 in f.conditions(rp.block):
+                    if sb2 == sb_ and {tt for _, tt in al2} == {t_}:
+                        valid_ok = True
         r.require(env_ok, "only-when-variable-is-set", fn=f, site=rp.at, detail="replace is control-dependent on env::var(name) == Ok")
         r.require(valid_ok, "only-when-name-terminated", fn=f, site=rp.at, detail="replace is control-dependent on a flag that is true only on the '}' edge of the name scan")
         ev = f.calls("std::env::var")
@@ -252,6 +300,7 @@ def run_cfg(ctx, p, cfg):
                 nf = cmp_nf(si.discr, True)
                 if nf and nf[0] == "Eq" and any(deep_strip(x) == ("const", "char", "}") for x in nf[1:]):
                     starts.append(si.target_of(True))
+        starts += [t_ for sb_, t_ in flag_terminator_edges(f)]
         if not r.require(bool(starts) and len(ev) == 1 and bool(outer), "anchors", fn=f, detail="terminator edge(s) %s, env::var sites %d, match loop steps %s" % (starts, len(ev), outer)):
             return
         # memo exception
